@@ -84,7 +84,7 @@ def san_env():
     return env
 
 
-def run_lines(exe, lines, env=None, timeout=900):
+def run_lines(exe, lines, env=None, timeout=900, max_crashes=200):
     """
     Feed request lines to a line-protocol program that may die.  Returns (answers, exit_kind):
     a request on which the process died is answered `crash:<kind>`; the process is restarted for the rest.
@@ -114,7 +114,7 @@ def run_lines(exe, lines, env=None, timeout=900):
             answers.append("crash:" + classify(err[-6000:], rc))
             start += 1
             crashes += 1
-            if crashes > 200:
+            if crashes > max_crashes:
                 answers += ["crash:too-many"] * (n - start)
                 break
         elif start >= n and rc not in (0,) and not stopped:
@@ -646,7 +646,9 @@ def _union_text(kinds):
 # ------------------------------------------------------------------------------------------------------------
 
 def make_targets(ns, base, quick, tag):
-    specs = [C04CTarget(ns, base / "c", endianness="any", asserts=True, cc="gcc", cflags=SAN, tag=f"c/any+asserts")]
+    specs = [C04CTarget(ns, base / "c", endianness="any", asserts=True, cc="gcc", cflags=SAN, tag=f"c/any+asserts"),
+             # little endian selects the bulk-copy paths (nunavutGetBits / nunavutCopyBits on whole arrays of standard-size primitives)
+             C04CTarget(ns, base / "c_le", endianness="little", asserts=False, cc="gcc", cflags=SAN, tag=f"c/little")]
     for std in ("c++14", "c++17", "c++20", "c++17-pmr"):
         specs.append(C04CppTarget(ns, base / std.replace("+", "p"), std=std, asserts=False, cxx="g++", cxxflags=SAN,
                                   parts=6 if quick else 8, tag=f"cpp/{std}"))
@@ -697,6 +699,17 @@ def codec_requests(ctx, ns, n_values, n_invalid, n_strings):
             keep = [b""] + encodings[:3]
             rest = [b for b in strings if b not in keep]
             strings = keep + rng.sample(rest, max(0, n_strings - len(keep)))
+        # EVERY truncation (cut at every byte) of the first valid encodings: the cuts fall inside bit-packed and unaligned arrays
+        # and inside bulk-copied fragments, where implicit zero extension has to overwrite whatever the destination held
+        n_enc, limit = (2, 72) if ctx.quick else (4, 400)
+        seen = set(strings)
+        for enc in sorted(set(encodings), key=len, reverse=True)[:n_enc]:
+            cuts = range(len(enc)) if len(enc) <= limit else sorted(set(range(limit // 2)) | set(rng.sample(range(len(enc)), limit // 2)))
+            for c in cuts:
+                if enc[:c] not in seen:
+                    seen.add(enc[:c])
+                    strings.append(enc[:c])
+                    ctx.count("codec_truncations")
         for b in strings:
             hx = b.hex() or "-"
             other = rng.choice(encodings).hex() if encodings else "-"
@@ -877,13 +890,27 @@ def codec_stream(ctx, drivers, ns, label, specs, n_values, n_invalid, n_strings)
 # stream O: the capacity-override option of the C target
 # ------------------------------------------------------------------------------------------------------------
 
-OV_TYPES = {"S8": 8, "S16": 16, "S7": 7}   # element bits; all: uint8 a; T[<=6] xs; uint8 b
-OV_CAP = 6
+# all: `uint8 a; <elem>[<=cap] xs; uint8 b`;  eb = element bits, lp = length prefix bits.  The capacities 255 / 65535 are the
+# largest value their prefix can hold, 15 / 7 are 2^k-1 below it (a check "the prefix cannot encode more" would be wrong as
+# soon as the user reduces the array).
+OV_TYPES = {"S8": {"eb": 8, "cap": 6, "lp": 8}, "S16": {"eb": 16, "cap": 6, "lp": 8}, "S7": {"eb": 7, "cap": 6, "lp": 8},
+            "B255": {"eb": 8, "cap": 255, "lp": 8}, "W255": {"eb": 16, "cap": 255, "lp": 8}, "B65535": {"eb": 8, "cap": 65535, "lp": 16},
+            "B15": {"eb": 8, "cap": 15, "lp": 8}, "B7": {"eb": 8, "cap": 7, "lp": 8}}
+OV_CONFIGS_QUICK = [
+    ("default", {}),
+    ("reduced-a", {"S8": 2, "S16": 2, "S7": 2, "B255": 16, "W255": 16, "B65535": 16, "B15": 4, "B7": 2}),
+    ("reduced-1", {t: 1 for t in OV_TYPES}),
+]
+OV_CONFIGS_MORE = [
+    ("reduced-b", {"S8": 3, "S16": 5, "S7": 3, "B255": 100, "W255": 254, "B65535": 255, "B15": 14, "B7": 6}),
+    ("reduced-c", {"S8": 5, "S16": 3, "S7": 5, "B255": 254, "W255": 2, "B65535": 65534, "B15": 8, "B7": 4}),
+    ("reduced-some", {"S8": 2, "B255": 16, "B65535": 300}),
+]
 
 
 def field_flags(header_text, eb):
     """From the generated serializer: which writes go through the checked setter?  -> (a, prefix, elements, b)"""
-    m = re.search(r"\{\s*// saturated uint8 a(.*?)\n    \{\s*// saturated uint\d+\[<=6\] xs(.*?)\n    \{\s*// saturated uint8 b(.*?)\n    (?:if \(offset_bits % 8U|// It is assumed)",
+    m = re.search(r"\{\s*// saturated uint8 a(.*?)\n    \{\s*// saturated uint\d+\[<=\d+\] xs(.*?)\n    \{\s*// saturated uint8 b(.*?)\n    (?:if \(offset_bits % 8U|// It is assumed)",
                   header_text, re.S)
     if not m:
         raise RuntimeError("cannot find the serialization blocks of the fields a, xs, b")
@@ -911,12 +938,12 @@ def override_prepare(ctx):
     base = ctx.scratch / "override"
     gen = base / "gen"
     base.mkdir(parents=True, exist_ok=True)
-    configs = [("default", None), ("sl2", 2), ("sl1", 1)] if ctx.quick else [("default", None)] + [(f"sl{n}", n) for n in (1, 2, 3, 5, 6)]
+    configs = OV_CONFIGS_QUICK if ctx.quick else OV_CONFIGS_QUICK + OV_CONFIGS_MORE
     jobs = []
-    for name, sl in configs:
+    for name, red in configs:
         exe = base / f"ov_{name}"
-        defs = [] if sl is None else [f"-Dov_{t}_1_0_xs_ARRAY_CAPACITY_={sl}U" for t in OV_TYPES]
-        jobs.append((name, sl, exe, ["gcc", "-std=c11", "-Wall", "-Wno-unused-function"] + SAN + defs +
+        defs = [f"-Dov_{t}_1_0_xs_ARRAY_CAPACITY_={n}U" for t, n in red.items()]
+        jobs.append((name, red, exe, ["gcc", "-std=c11", "-Wall", "-Wno-unused-function"] + SAN + defs +
                      ["-I", str(gen), str(HERE / "c" / "c04_override.c"), "-o", str(exe), "-lm"]))
     return {"base": base, "gen": gen, "configs": configs, "jobs": jobs, "res": None, "gen_log": None}
 
@@ -938,65 +965,84 @@ def override_stream(ctx, vdrv, state):
         ctx.broken.append({"kind": "override-generate", "log_tail": state["gen_log"]})
         return
     gen, configs, jobs, res = state["gen"], state["configs"], state["jobs"], state["res"]
-    flags = {}
-    for t, eb in OV_TYPES.items():
+    flags, cmp_storage = {}, {}
+    for t, d in OV_TYPES.items():
         try:
-            flags[t] = field_flags((gen / "ov" / f"{t}_1_0.h").read_text(), eb)
+            htxt = (gen / "ov" / f"{t}_1_0.h").read_text()
+            flags[t] = field_flags(htxt, d["eb"])
         except Exception as e:
             ctx.broken.append({"kind": "override-translate", "type": t, "error": str(e)})
             return
-    # does the emitted comparison use the real array or the DSDL capacity?  (decided from the text, used for the model)
-    htxt = (gen / "ov" / "S8_1_0.h").read_text()
-    cmp_storage = "1" if re.search(r"xs\.count > \(?sizeof|xs\.count > ov_S8_1_0_xs_ARRAY_CAPACITY_", htxt) else "0"
-    ctx.extra["override_length_check_uses_real_capacity"] = cmp_storage == "1"
-    for (name, sl, exe, _), (ok, log) in zip(jobs, res):
+        # does the emitted comparison use the real array or the DSDL capacity?  (decided from the text, used for the model)
+        cmp_storage[t] = "1" if re.search(r"xs\.count > \(?sizeof|xs\.count > ov_" + t + r"_1_0_xs_ARRAY_CAPACITY_", htxt) else "0"
+    ctx.extra["override_length_check_uses_real_capacity"] = all(v == "1" for v in cmp_storage.values())
+    for (name, red, exe, cmdline), (ok, log) in zip(jobs, res):
         if not ok:
             ctx.broken.append({"kind": "override-build", "config": name, "log_tail": log[-2000:]})
             continue
-        real_sl = OV_CAP if sl is None else sl
-        check = "1" if sl is None else "0"
+        defines = " ".join(x for x in cmdline if x.startswith("-Dov_")) or "(none)"
         lines, meta = [], []
-        for t, eb in OV_TYPES.items():
+        for t, d in OV_TYPES.items():
+            eb, cap, lp = d["eb"], d["cap"], d["lp"]
+            real_sl = red.get(t, cap)
             lines.append(f"info {t}"); meta.append((t, "info", None))
-            need_bits = lambda c: 8 + 8 + c * eb + 8
-            for count in list(range(0, OV_CAP + 3)) + [255, 70000]:
+            need_bits = lambda c: 8 + lp + c * eb + 8
+            counts = set(range(0, min(cap, 8) + 3)) | {real_sl - 1, real_sl, real_sl + 1, real_sl + 2, (real_sl + cap) // 2, cap - 1, cap, cap + 1,
+                                                         200, 255, 256, 65535, 70000}
+            counts = sorted(c for c in counts if c >= 0)
+            for count in counts:
                 maxb = (need_bits(min(count, real_sl)) + 7) // 8
-                caps = sorted({0, 1, 2, max(0, maxb - 1), maxb, maxb + 1, (need_bits(OV_CAP) + 7) // 8, 64})
-                for cap in caps:
-                    lines.append(f"ser {t} {count} {cap}"); meta.append((t, "ser", (count, cap)))
-            for count in list(range(0, OV_CAP + 3)) + [255]:
-                for extra_len in (0, 1, count * ((eb + 7) // 8) + 1, 40):
-                    data = bytes([0x5A, count]) + bytes((0x30 + i) & 0x7F for i in range(extra_len))
+                caps = {max(0, maxb - 1), maxb, maxb + 1, (need_bits(cap) + 7) // 8, 64}
+                if t not in red or count in (0, real_sl):
+                    caps |= {0, 1, 2}       # (with the buffer check compiled out every too-small buffer is the known overrun: sampled)
+                for bcap in sorted(caps):
+                    lines.append(f"ser {t} {count} {bcap}"); meta.append((t, "ser", (count, bcap)))
+            for count in counts:
+                if count >= 1 << lp:
+                    continue
+                lens = (0, 1, count * ((eb + 7) // 8) + 1, 40) if count <= 300 else (0, 1, 40)
+                for extra_len in lens:
+                    data = bytes([0x5A]) + count.to_bytes(lp // 8, "little") + bytes((0x30 + i) & 0x7F for i in range(extra_len))
                     lines.append(f"de {t} {data.hex()}"); meta.append((t, "de", (count, data)))
             lines.append(f"de {t} -"); meta.append((t, "de", (0, b"")))
-        answers, exit_kind = run_lines(exe, lines)
+        answers, exit_kind = run_lines(exe, lines, max_crashes=4000)
         # model
         mlines = []
         for (t, op, arg) in meta:
-            eb = OV_TYPES[t]
+            d = OV_TYPES[t]
+            real_sl = red.get(t, d["cap"])
+            check = "0" if t in red else "1"      # a user-defined capacity macro of a type compiles ITS buffer check out (see `info`)
             ac, lpc, ec, bc = flags[t]
-            fields = f"p:8:{int(ac)};v:8:{eb}:{OV_CAP}:{real_sl}:{int(lpc)}:{int(ec)};p:8:{int(bc)}"
+            fields = f"p:8:{int(ac)};v:{d['lp']}:{d['eb']}:{d['cap']}:{real_sl}:{int(lpc)}:{int(ec)};p:8:{int(bc)}"
             if op == "ser":
-                mlines.append(f"cser {check} {cmp_storage} {arg[1]} {fields} p;c:{arg[0]};p")
+                mlines.append(f"cser {check} {cmp_storage[t]} {arg[1]} {fields} p;c:{arg[0]};p")
             elif op == "de":
-                mlines.append(f"cde {cmp_storage} {fields} {arg[1].hex() or '-'}")
+                mlines.append(f"cde {cmp_storage[t]} {fields} {arg[1].hex() or '-'}")
             else:
                 mlines.append(None)
         mans = vdrv.ask([m for m in mlines if m is not None]) if vdrv is not None else []
         it = iter(mans)
         nfail = {}
         for (t, op, arg), l, a, ml in zip(meta, lines, answers, mlines):
+            d = OV_TYPES[t]
+            real_sl = red.get(t, d["cap"])
+            check = "0" if t in red else "1"
+            sl = red.get(t)
             if op == "info":
-                mm = re.match(r"ok sl=(\d+) cap=6 check=(\d)", a)
-                if not mm or int(mm.group(1)) != real_sl or mm.group(2) != check:
-                    ctx.disagree("override/info", {"config": name, "request": l}, f"sl={real_sl} check={check}", a)
+                mm = re.match(r"ok sl=(\d+) cap=(\d+) check=(\d)", a)
+                if not mm or int(mm.group(1)) != real_sl or int(mm.group(2)) != d["cap"] or mm.group(3) != check:
+                    ctx.disagree("override/info", {"config": name, "request": l}, f"sl={real_sl} cap={d['cap']} check={check}", a)
                 continue
             m = next(it) if vdrv is not None else None
-            ctx.case(("O", name, l), nontrivial=(real_sl != OV_CAP))
+            ctx.case(("O", name, l), nontrivial=(real_sl != d["cap"]))
+            if real_sl < count <= d["cap"]:
+                ctx.count("override_count_between_reduced_and_dsdl_capacity")
+            if d["cap"] + 1 == 1 << d["lp"]:
+                ctx.count("override_capacity_is_prefix_maximum")
             ctx.count("override_" + op)
             count = arg[0]
-            rp = {"stream": "override", "config": name, "defines": f"ov_{t}_1_0_xs_ARRAY_CAPACITY_={real_sl}U" if sl is not None else "(none)",
-                  "nnvg": "--target-language c --enable-override-variable-array-capacity", "dsdl": f"uint8 a\nuint{OV_TYPES[t]}[<=6] xs\nuint8 b\n@sealed\n",
+            rp = {"stream": "override", "config": name, "defines": defines,
+                  "nnvg": "--target-language c --enable-override-variable-array-capacity", "dsdl": f"uint8 a\nuint{d['eb']}[<={d['cap']}] xs\nuint8 b\n@sealed\n",
                   "request": l, "observed": a, "model": m}
 
             def fail(key, what):
@@ -1188,8 +1234,7 @@ def replay(ctx, path):
         env = dict(os.environ); env["PYTHONPATH"] = str(common.REPO / "src")
         subprocess.run([common.PY, "-m", "nunavut", "--target-language", "c", "--enable-override-variable-array-capacity", "--outdir", str(base / "gen"),
                         str(CORPUS / "override" / "ov")], capture_output=True, timeout=600, env=env)
-        m = re.search(r"ARRAY_CAPACITY_=(\d+)U", rp.get("defines", ""))
-        defs = [f"-Dov_{t}_1_0_xs_ARRAY_CAPACITY_={m.group(1)}U" for t in OV_TYPES] if m else []
+        defs = re.findall(r"-Dov_\w+_ARRAY_CAPACITY_=\d+U", rp.get("defines", ""))
         ok, log = compile_cmd(["gcc", "-std=c11"] + SAN + defs + ["-I", str(base / "gen"), str(HERE / "c" / "c04_override.c"), "-o", str(base / "ov"), "-lm"])
         if not ok:
             print("build failed:", log[-1500:]); ctx.cleanup(); return 2
